@@ -154,6 +154,9 @@ func (i *interpreter) scheduleNext(cur *thread, park bool) {
 				desc += fmt.Sprintf("[%s: %s] ", t.name, t.blocked)
 			}
 		}
+		// recorded as a violation of its own so that it carries the path's inputs, the
+		// order of stub effects and the schedule-dependence flag (for native replay)
+		i.addViolation(nil, "deadlock", "deadlock", desc, nil)
 		i.finish(pathEnd{kind: "deadlock", msg: desc})
 		if park {
 			cur.wait() // will be killed
